@@ -20,7 +20,7 @@ PROPS = {
             "modes": [{"name": "c01", "quick_n": 1500, "thorough_n": 12000, "shard": 120}]},
     "C02": {"theorems": ["C02_folding_is_invisible", "C02_refolding_is_invisible", "C02_parse_vs_parse_wo_compile", "C02_folded_parse_is_reference", "C02_deep_folding_is_invisible", "C02_deep_parse_is_reference"], "modes": [{"name": "c02", "quick_n": 500, "thorough_n": 4000, "shard": 120}]},
     "C03": {"theorems": ["C03_deep_parse_is_reference", "C03_deep_token_entry_point", "C03_flat_and_deep_agree", "C03_deep_eval_is_denotation", "C03_flat_to_deep", "C03_deep_to_flat", "C03_any_number_of_round_trips", "C03_every_parsed_flat_expression_converts", "C03_listings_sorted_duplicate_free", "C03_listings_are_the_operators_of_the_expression", "C03_deep_to_flat_keeps_the_listings", "C03_unfolded_parse_lists_the_operators_of_the_text", "C03_folding_only_removes_names_partial"], "modes": [{"name": "c03", "quick_n": 500, "thorough_n": 4000, "shard": 150}]},
-    "C04": {"theorems": ["C04_vars_sorted_distinct_complete", "C04_binding_is_position", "C04_every_variable_has_an_index", "C04_arity_flat", "C04_arity_flat_relaxed", "C04_arity_deep", "C04_relaxed_ignores_surplus"], "modes": [{"name": "c04", "quick_n": 250, "thorough_n": 2000, "shard": 25}]},
+    "C04": {"theorems": ["C04_vars_sorted_distinct_complete", "C04_binding_is_position", "C04_every_variable_has_an_index", "C04_arity_flat", "C04_arity_flat_relaxed", "C04_arity_deep", "C04_relaxed_ignores_surplus", "C04_binary_application_lists_the_sorted_union", "C04_substitution_lists_the_sorted_names"], "modes": [{"name": "c04", "quick_n": 250, "thorough_n": 2000, "shard": 25}]},
     "C07": {"theorems": ["C07_unbalanced_rejected", "C07_empty_rejected", "C07_trailing_operator_rejected", "C07_bad_pair_rejected", "C07_operand_count"], "modes": [{"name": "c07", "quick_n": 250, "thorough_n": 2500, "shard": 250}]},
     "C08": {"theorems": ["C08_tokenizer_is_lexer_then_rewrite", "C08_call_form_is_infix_at_any_nesting", "C08_same_tokens_as_infix_text"], "modes": [{"name": "c08", "quick_n": 800, "thorough_n": 6000, "shard": 120}]},
     "C10": {"theorems": ["C10_deep_binary_application_is_a_homomorphism", "C10_deep_unary_application_is_a_homomorphism", "C10_flat_binary_application_is_a_homomorphism", "C10_flat_unary_application_is_a_homomorphism", "C10_unknown_binary_name_is_error_partial", "C10_unknown_unary_name_is_error_partial", "C10_not_a_unary_operator_is_error_partial", "C10_shortcuts_are_sound_over_the_reals", "C10_is_num_is_sound_on_normal_forms"], "axioms": REAL_AXIOMS, "modes": [{"name": "c10", "quick_n": 400, "thorough_n": 3000, "shard": 40}, {"name": "c10s", "quick_n": 400, "thorough_n": 3000, "shard": 40}]},
